@@ -2,12 +2,18 @@ package checks
 
 import (
 	"fmt"
+	"runtime"
+	"runtime/debug"
+	"sync"
+	"sync/atomic"
 	"testing"
+	"time"
 
 	"github.com/akrylysov/pogreb"
 
 	"verif/harness/core"
 	"verif/harness/dbx"
+	"verif/harness/keys"
 )
 
 // C11: iteration is complete and truthful.
@@ -162,3 +168,189 @@ func propC11(ch core.Chooser, st *core.Stats) error {
 }
 
 func TestC11(t *testing.T) { core.Run(t, "C11", "C11", propC11) }
+
+// ---------------------------------------------------------------------------------------------
+// C11 free-running (race build): scans run on their own goroutines while a writer goroutine
+// executes a drawn operation list (inserts of fresh keys that grow the index, overwrites and
+// deletes on a hot set) and the background compaction worker runs. Truthful: every returned
+// pair carries a value that the operation list (or the prefill) ever assigns to that key.
+// Complete: every prefilled key that the operation list never touches is returned at least once
+// by every scan. Termination: a scan ends.
+
+func propC11Free(ch core.Chooser, st *core.Stats) error {
+	seed := uint32(ch.Int("hashseed", 0, 1<<30))
+	pinSeed(seed)
+	uni := keys.Build(seed, keys.Spec{Identical: 1, LowBits16: 40, LowBits2: 20, Plain: 40, Variant: uint32(ch.Int("univariant", 0, 3))})
+	var ukeys []string
+	for _, k := range uni.Keys {
+		ukeys = append(ukeys, string(k))
+	}
+	kind := drawEnvKind(ch, []string{"os", "mmap", "mem"})
+	env := NewEnv(kind)
+	defer env.Cleanup()
+	cfg := dbx.Config{SegSize: uint32(core.PickInt(ch, "segsize", []int{2048, 4096, 1 << 20})), MinSeg: 520, Frag: 0.1}
+	opts := cfg.Options(env.FS)
+	opts.BackgroundCompactionInterval = time.Duration(ch.Int("bg_compact_ms", 0, 2)) * time.Millisecond
+	var db *pogreb.DB
+	if err := core.Safe(func() error { var e error; db, e = pogreb.Open(env.Dir, opts); return e }); err != nil {
+		return fmt.Errorf("Open failed: %v", err)
+	}
+	defer func() { _ = core.Safe(func() error { return db.Close() }) }()
+	ever := map[string]map[string]bool{}
+	note := func(k, v string) {
+		if ever[k] == nil {
+			ever[k] = map[string]bool{}
+		}
+		ever[k][v] = true
+	}
+	// prefill: stable keys (never touched again) and a hot set
+	nStable := ch.Int("stable", 10, 70)
+	stable := map[string]string{}
+	for i := 0; i < nStable; i++ {
+		k, v := ukeys[i], mkValue(i, core.PickInt(ch, "svlen", []int{1, 20, 60}))
+		if err := db.Put([]byte(k), []byte(v)); err != nil {
+			return fmt.Errorf("Put failed: %v", err)
+		}
+		stable[k] = v
+		note(k, v)
+	}
+	hot := ukeys[nStable : nStable+6]
+	type wop struct {
+		kind int // 0 put hot, 1 delete hot, 2 insert fresh
+		key  string
+		val  string
+	}
+	n := ch.Int("writer_ops", 20, core.Scale(120, 400))
+	ops := make([]wop, n)
+	fresh := 0
+	for i := range ops {
+		switch core.Weighted(ch, "wkind", []int{3, 2, 5}) {
+		case 0:
+			k := hot[ch.Int("hotkey", 0, len(hot)-1)]
+			ops[i] = wop{0, k, mkValue(1000+i, core.PickInt(ch, "vlen", []int{5, 60, 300}))}
+			note(k, ops[i].val)
+		case 1:
+			ops[i] = wop{1, hot[ch.Int("hotkey", 0, len(hot)-1)], ""}
+		default:
+			fresh++
+			k := fmt.Sprintf("fresh-%d-%d", fresh, i)
+			ops[i] = wop{2, k, mkValue(2000+i, 8)}
+			note(k, ops[i].val)
+		}
+	}
+	scanners := ch.Int("scanners", 1, 3)
+	scansEach := ch.Int("scans_each", 1, 3)
+	ch.Note("fs=%s %s stable=%d writer ops=%d (fresh inserts %d) scanners=%d x %d", kind, cfg, nStable, n, fresh, scanners, scansEach)
+	var wg sync.WaitGroup
+	start := make(chan struct{})
+	errs := make(chan string, 8)
+	fail := func(f string, a ...interface{}) {
+		select {
+		case errs <- fmt.Sprintf(f, a...):
+		default:
+		}
+	}
+	wg.Add(1)
+	go func() {
+		defer wg.Done()
+		debug.SetPanicOnFault(true)
+		<-start
+		for i, o := range ops {
+			err := core.Safe(func() error {
+				if o.kind == 1 {
+					return db.Delete([]byte(o.key))
+				}
+				return db.Put([]byte(o.key), []byte(o.val))
+			})
+			if err != nil {
+				fail("writer operation %d failed: %v", i, err)
+				return
+			}
+			if i%4 == 0 {
+				runtime.Gosched()
+			}
+		}
+	}()
+	var scansDone, pairs int64
+	for sc := 0; sc < scanners; sc++ {
+		wg.Add(1)
+		go func(sc int) {
+			defer wg.Done()
+			debug.SetPanicOnFault(true)
+			<-start
+			for r := 0; r < scansEach; r++ {
+				seen := map[string]bool{}
+				err := core.Safe(func() error {
+					it := db.Items()
+					for cnt := 0; ; cnt++ {
+						if cnt > 200000 {
+							return fmt.Errorf("scan does not terminate")
+						}
+						k, v, e := it.Next()
+						if e == pogreb.ErrIterationDone {
+							return nil
+						}
+						if e != nil {
+							return fmt.Errorf("Next failed: %v", e)
+						}
+						if !ever[string(k)][string(v)] {
+							return fmt.Errorf("scan returned the pair %s=%s, a value never assigned to that key", dbx.K(string(k)), dbx.V(string(v)))
+						}
+						seen[string(k)] = true
+						atomic.AddInt64(&pairs, 1)
+						if cnt%16 == 0 {
+							runtime.Gosched()
+						}
+					}
+				})
+				if err != nil {
+					fail("scanner %d scan %d: %v", sc, r, err)
+					return
+				}
+				for k := range stable {
+					if !seen[k] {
+						fail("scanner %d scan %d missed key %s, which existed with an unchanged value for the whole run", sc, r, dbx.K(k))
+						return
+					}
+				}
+				atomic.AddInt64(&scansDone, 1)
+			}
+		}(sc)
+	}
+	close(start)
+	fin := make(chan struct{})
+	go func() { wg.Wait(); close(fin) }()
+	select {
+	case <-fin:
+	case <-time.After(120 * time.Second):
+		return &core.Inconclusive{Msg: "free-running scan workload did not finish within 120 s"}
+	}
+	select {
+	case e := <-errs:
+		return fmt.Errorf("%s", e)
+	default:
+	}
+	// quiescent end: a scan returns every live key exactly once
+	final := dbx.Clone(stable)
+	for _, o := range ops {
+		if o.kind == 1 {
+			delete(final, o.key)
+		} else {
+			final[o.key] = o.val
+		}
+	}
+	if err := dbx.CheckAll(db, final, nil); err != nil {
+		return fmt.Errorf("quiescent scan after the run: %v", err)
+	}
+	st.Eval(1)
+	st.Count("free_scans", scansDone)
+	st.Count("free_pairs_returned", pairs)
+	st.Count("free_fs_"+kind, 1)
+	if fresh >= 25 {
+		// enough inserts of new keys for the index to split while scans are under way
+		st.Nontrivial(core.FingerprintOf(ch))
+	}
+	return nil
+}
+
+func TestC11Free(t *testing.T) { core.Run(t, "C11", "C11free", propC11Free) }
